@@ -136,6 +136,25 @@ pub fn replay_int(case: &Value) -> (crate::erralg::Outcome, String, bool) {
             }
         }
     }
+    // the same item followed by another one: the position of an item in its list changes nothing
+    // (syn folds a sign into the literal only when nothing follows the value)
+    if neg && case["sp"]["quoted"] != true {
+        let src = format!("#[root(name = {}, zz = 1)]\nstruct Demo;", text);
+        if let Ok(di) = syn::parse_str::<syn::DeriveInput>(&src) {
+            if let syn::Meta::List(l) = &di.attrs[0].meta {
+                let mut nodes = crate::input::split(l.tokens.clone());
+                if nodes.len() == 2 { if let crate::input::Node::Meta(m2) = nodes.remove(0) {
+                    let r2 = catch(std::panic::AssertUnwindSafe(|| convert_int(ty, nz, &m2)));
+                    let eok = case["expect"]["ok"].as_bool().unwrap();
+                    match r2 {
+                        Err(p) => prop.push(format!("{} (followed by another item): panicked: {}", tag, p)),
+                        Ok(Ok(v)) => if !eok { prop.push(format!("{} (followed by another item): accepted as {}", tag, v)); } else if v != want { prop.push(format!("{} (followed by another item): yields {}", tag, v)); },
+                        Ok(Err(e)) => if eok { prop.push(format!("{} (followed by another item): rejected ({}) although in range", tag, e)); },
+                    }
+                } }
+            }
+        }
+    }
     let _ = json!(null);
     (crate::erralg::Outcome { prop, model: vec![] }, tag, false)
 }
@@ -323,7 +342,14 @@ pub fn replay_floats(seed: u64, n: usize) -> (Vec<Value>, u64, Vec<String>) {
     for t in &texts {
         let mut spellings = vec![format!("name = \"{}\"", t)];
         // also unquoted when the text is a Rust float literal
-        if syn::parse_str::<syn::LitFloat>(t.trim_start_matches('-')).is_ok() { spellings.push(format!("name = {}", t)); }
+        if syn::parse_str::<syn::LitFloat>(t.trim_start_matches('-')).is_ok() {
+            spellings.push(format!("name = {}", t));
+            // .. and with either suffix, whatever the target: a suffix is spelling, the value is the decimal text
+            for suf in ["f32", "f64"] {
+                let lit = format!("{}{}", t, suf);
+                if syn::parse_str::<syn::LitFloat>(lit.trim_start_matches('-')).is_ok() { spellings.push(format!("name = {}", lit)); }
+            }
+        }
         for sp in spellings {
             let src = format!("#[root({})]\nstruct Demo;", sp);
             let di: syn::DeriveInput = match syn::parse_str(&src) { Ok(d) => d, Err(_) => continue };
